@@ -191,17 +191,21 @@ def replay(prop_id, path):
 EXTRAS = {}
 
 
-def check_c19(tier, seed):
-    from . import c19
-    report = Report("C19", tier, seed)
-    report.lean = framework.lean_obligations("C19", thorough=(tier == "thorough"))
-    cov = c19.run(tier, seed, report)
+def check_special(prop_id, modname, tier, seed):
+    import importlib
+    mod = importlib.import_module("hsv." + modname)
+    report = Report(prop_id, tier, seed)
+    report.lean = framework.lean_obligations(prop_id, thorough=(tier == "thorough"))
+    cov = mod.run(tier, seed, report)
     if (report.lean["broken"] or report.disagreements) and not report.findings:
-        more = c19.run("thorough" if tier == "quick" else tier, seed + 7919, report)
+        more = mod.run("thorough" if tier == "quick" else tier, seed + 7919, report)
         cov["evaluations"] += more["evaluations"]
         report.notes.append("failing-input search ran %d more cases" % more["evaluations"])
     report.coverage.update(cov)
     return report.finish()
+
+
+SPECIAL = {"C19": "c19", "C15": "c15"}
 
 
 def main(argv):
@@ -216,8 +220,8 @@ def main(argv):
         tier = argv[2]
         if prop_id in props_seq.SEQ_PROPS:
             return check_seq(prop_id, tier, seed)
-        if prop_id == "C19":
-            return check_c19(tier, seed)
+        if prop_id in SPECIAL:
+            return check_special(prop_id, SPECIAL[prop_id], tier, seed)
         print("unknown property", prop_id)
         return 2
     except framework.InfraError as e:
